@@ -91,7 +91,19 @@ impl WriteSource for pr::ExprKind {
         use pr::ExprKind::*;
 
         match &self {
-            Ident(ident) => Some(ident.to_string()),
+            Ident(ident) => {
+                // as `ident.to_string()`, but words that the lexer would read as a keyword
+                // or literal need backticks to stay identifiers
+                let parts = ident.path.iter().chain(Some(&ident.name));
+                let parts = parts.map(|part| {
+                    if keywords().contains(part.as_str()) {
+                        format!("`{part}`")
+                    } else {
+                        pr::Ident::from_name(part).to_string()
+                    }
+                });
+                Some(parts.collect::<Vec<_>>().join("."))
+            }
 
             Pipeline(pipeline) => SeparatedExprs {
                 inline: " | ",
@@ -336,8 +348,10 @@ impl WriteSource for pr::Ident {
 fn keywords() -> &'static HashSet<&'static str> {
     static KEYWORDS: OnceLock<HashSet<&'static str>> = OnceLock::new();
     KEYWORDS.get_or_init(|| {
+        // (the words the lexer does not read as an identifier)
         HashSet::from_iter([
-            "let", "into", "case", "prql", "type", "module", "internal", "func",
+            "let", "into", "case", "prql", "type", "module", "internal", "func", "import", "enum",
+            "true", "false", "null",
         ])
     })
 }
